@@ -404,3 +404,46 @@ Proof.
     - apply Z.leb_le. apply Hle; try assumption. now apply samples_In. }
   pose proof (NoDup_incl_length Hnd Hsub). lia.
 Qed.
+
+(* ---------- more facts about sorted lists ---------- *)
+
+Lemma sorted_firstn_skipn_le : forall {A} (key : A -> Z) (l : list A) n x y,
+  StronglySorted (key_le key) l -> In x (firstn n l) -> In y (skipn n l) -> key x <= key y.
+Proof.
+  intros A key. induction l as [|a r IH]; intros n x y Hs Hx Hy.
+  - rewrite firstn_nil in Hx. destruct Hx.
+  - destruct n as [|n]; [destruct Hx|]. cbn [firstn skipn] in *.
+    inversion Hs as [|? ? Hs' Hall]; subst. destruct Hx as [<-|Hx].
+    + rewrite Forall_forall in Hall. apply (Hall y).
+      rewrite <- (firstn_skipn n r). apply in_or_app. now right.
+    + now apply (IH n).
+Qed.
+
+Lemma NoDup_firstn_Z : forall (l : list Z) n, NoDup l -> NoDup (firstn n l).
+Proof.
+  induction l as [|a r IH]; intros n H; [rewrite firstn_nil; constructor|].
+  destruct n as [|n]; cbn [firstn]; [constructor|]. inversion H; subst. constructor; [|now apply IH].
+  intros Hin. apply H2. rewrite <- (firstn_skipn n r). apply in_or_app. now left.
+Qed.
+
+(* ---------- a decision procedure for "d is a metric on the samples" (used by the
+   examples and, for small N, by the extracted driver on the harness's matrices) ------- *)
+
+Definition in_range (N : nat) (x : Z) : Prop := 0 <= x < Z.of_nat N.
+
+Definition metric_b (d : dist) (N : nat) : bool :=
+  forallb (fun x => forallb (fun y =>
+     (d x y =? d y x) &&
+     forallb (fun z => d x z <=? d x y + d y z) (samples N)) (samples N)) (samples N).
+
+Lemma metric_b_sound : forall d N, metric_b d N = true -> metric_on (in_range N) d.
+Proof.
+  intros d N H. unfold metric_b in H. rewrite forallb_forall in H. split.
+  - intros x y Hx Hy. apply samples_In in Hx. apply samples_In in Hy.
+    specialize (H x Hx). rewrite forallb_forall in H. specialize (H y Hy).
+    apply andb_true_iff in H. destruct H as [H _]. now apply Z.eqb_eq.
+  - intros x y z Hx Hy Hz. apply samples_In in Hx. apply samples_In in Hy. apply samples_In in Hz.
+    specialize (H x Hx). rewrite forallb_forall in H. specialize (H y Hy).
+    apply andb_true_iff in H. destruct H as [_ H]. rewrite forallb_forall in H.
+    specialize (H z Hz). now apply Z.leb_le.
+Qed.
